@@ -425,15 +425,16 @@ class S:
 
     # --------------------------------------------------------- transcendentals
     def exp(self):
-        """exp of a linear combination is normalised to a product of basis atoms:
-               exp(c + sum k_i*x_i + sum m_j*log(u_j)) = E(c) * prod E(x_i)**k_i * prod u_j**m_j        (integer k_i, m_j)
-           so that exp(s+t) = exp(s)exp(t), exp(-t) = 1/exp(t) and exp(log u) = u hold structurally."""
+        """normal form of exp: log atoms are extracted (exp(t + k*log u) = exp(t) * u**k), a single-term argument k*x is
+        written over the basis atom E(x) (so exp(-x) = 1/exp(x), exp(2x) = exp(x)**2 hold structurally), and a multi-term
+        argument is one atom over the canonically ordered linear combination."""
         if self.is_const() and self.const() == 0:
             return S(ONE)
         if not z3.is_rational_value(self.d):
             return self._exp_atom(self)
         c0, terms = lin_decompose(self.n, 1 / self.d.as_fraction())
         r = S(ONE)
+        live = {}
         for i in sorted(terms):
             k, a = terms[i]
             if k == 0:
@@ -441,16 +442,17 @@ class S:
             at = SESSION.atom_of(a)
             if at is not None and at.kind == "log" and k.denominator == 1:
                 r = r * (at.arg ** int(k))
-                continue
-            if k.denominator == 1:
-                r = r * (self._exp_atom(S(a)) ** int(k))
             else:
-                base = self._exp_atom(S(RV(abs(k)) * a))
-                r = r * (base if k > 0 else base.inv_nocheck())
-        if c0 != 0:
-            base = self._exp_atom(S(RV(abs(c0))))
-            r = r * (base if c0 > 0 else base.inv_nocheck())
-        return r
+                live[i] = [k, a]
+        if not live and c0 == 0:
+            return r
+        if len(live) == 1 and c0 == 0:
+            (k, a), = live.values()
+            if k.denominator == 1:
+                return r * (self._exp_atom(S(a)) ** int(k))
+            base = self._exp_atom(S(RV(abs(k)) * a))
+            return r * (base if k > 0 else base.inv_nocheck())
+        return r * self._exp_atom(S(lin_rebuild(c0, live)))
 
     @staticmethod
     def _exp_atom(arg):
